@@ -19,8 +19,9 @@ def cfg(nlines, ncorr, inv, live=True):
 def _job(args):
     logging.disable(logging.CRITICAL)
     from . import serial_rec
-    lines, corrupt, holds = args
-    return serial_rec.run_job(lines, corrupt=corrupt, holds={int(k): v for k, v in holds.items()})
+    lines, corrupt, holds = args[:3]
+    pauses = args[3] if len(args) > 3 else ()
+    return serial_rec.run_job(lines, corrupt=corrupt, holds={int(k): v for k, v in holds.items()}, pauses=pauses)
 
 
 def run_jobs(specs, par=12):
@@ -89,6 +90,8 @@ def impl_conformance(traces):
     from .common import workdir, write_json
     groups = {}
     for i, t in enumerate(traces):
+        if t["meta"].get("pauses"):
+            continue                      # SenderImpl has no pause(); those executions belong to SenderPauseImpl
         p = project(t)
         if p is not None and p["nlines"] >= 1:
             groups.setdefault(p["nlines"], []).append((i, p))
@@ -119,6 +122,11 @@ class P(flow.Plan):
     def model_runs(self, tier):
         runs = [("sender-3x2", "SenderImpl", cfg(3, 2, ["CompleteModuloFindings", "InOrder"]), None, []),
                 ("sender-3x2-strict", "SenderImpl", cfg(3, 2, ["CompleteStrict"], live=False), None, ["CompleteStrict"])]
+        pc = ("SPECIFICATION Spec\nCONSTANTS\n NLines = 3\n MaxCorrupt = %d\n MaxPauses = %d\n NRestore = 2\n PauseClearsSentlines = %s\n"
+              "INVARIANT CompleteModuloFindings\nINVARIANT InOrder\nINVARIANT RestoreDelivered\nINVARIANT NeverDies\n%s")
+        big = tier == "thorough"
+        runs.append(("sender-pause-resume", "SenderPauseImpl", pc % (2 if big else 1, 2 if big else 1, "FALSE", "PROPERTY Terminates\n"), None, []))
+        runs.append(("sender-pause-F18", "SenderPauseImpl", pc % (1, 1, "TRUE", ""), None, ["NeverDies"]))
         if tier == "thorough":
             runs.append(("sender-4x3", "SenderImpl", cfg(4, 3, ["CompleteModuloFindings", "InOrder"]), None, []))
         return runs
@@ -174,8 +182,10 @@ class P(flow.Plan):
             for j in range(3 * k + 8):
                 if rng.random() < 0.25:
                     holds[j] = rng.randint(0, k + 4)
-            specs.append((lines, corrupt, holds))
-            inputs.append({"lines": lines, "corrupt": corrupt, "holds": holds})
+            # beyond the listed quantifier: pause() / resume() in the middle of the job (SenderPauseImpl)
+            pauses = sorted(rng.sample(range(1, k + 2), rng.choice([1, 1, 2]))) if i % 4 == 0 and k >= 2 else []
+            specs.append((lines, corrupt, holds, pauses))
+            inputs.append({"lines": lines, "corrupt": corrupt, "holds": holds, "pauses": pauses})
         traces = run_jobs(specs)
         for t in traces:
             t["meta"]["driver"] = "random"
@@ -183,7 +193,7 @@ class P(flow.Plan):
 
     def replay(self, payload):
         inp = payload["input"]
-        return run_jobs([(inp["lines"], inp["corrupt"], inp["holds"])], par=1), [inp]
+        return run_jobs([(inp["lines"], inp["corrupt"], inp["holds"], inp.get("pauses", []))], par=1), [inp]
 
     def sample(self, t):
         return {"meta": t["meta"], "raw_job": t["raw"], "ev": [{"k": e["k"], "text": bytes(e["text"]).decode("ascii", "replace"), "bad": e["bad"]} for e in t["ev"][:14]]}
